@@ -98,6 +98,9 @@ func TestC07(t *testing.T) {
 
 	r.Rapid("valid", kit.Pick(2000, 100000), func(rt *rapid.T) {
 		st := gen.TypedSchema().Draw(rt, "schema")
+		if rapid.IntRange(0, 3).Draw(rt, "extendbuiltin") == 0 {
+			gen.ExtendBuiltin(rt, &st)
+		}
 		text := renderSchemaTree(st, gen.Rand(rt))
 		c := schemaCase{Sources: []srcText{{"s.graphql", text}}}
 		r.Begin("valid", func() interface{} { return c })
